@@ -34,7 +34,7 @@ def instrument_ll(src, dst):
 def build_native(inst, wd, sanitize, from_ir=None):
     exe = os.path.join(wd, 'replay_san' if sanitize else 'replay_ir')
     rt = os.path.join(engine.RT, 'native_rt.cpp')
-    incs = ['-I' + engine.REPO, '-I' + os.path.join(engine.REPO, 'dispenso', 'third-party', 'moodycamel'),
+    incs = ['-I' + engine.REPO, '-I' + os.path.join(engine.REPO, 'dispenso', 'third-party'),
             '-I' + engine.RT, '-I' + os.path.join(engine.ROOT, 'harness', 'common')]
     defs = ['-D%s=%s' % (k, v) for k, v in inst.get('defs', {}).items()]
     for s in inst.get('shims', []):
